@@ -117,7 +117,8 @@ def parseFLine (b : Buf) (offs : Nat) (pl : PFLine) : Nat × Err × PFLine :=
   | .rplStatus => (offs, .ok, { pl with state := .fin })  -- no case in the Go switch: falls to endOk
   | .fin => (offs, .ok, { pl with state := .fin })
 
-def PFLine.request (pl : PFLine) : Bool := pl.status == 0
+/-- `Request()`: no status (0) AND no status-code text — a reply always has one, also `000` (fix 07883de) -/
+def PFLine.request (pl : PFLine) : Bool := pl.status == 0 && pl.statusCode.len == 0
 def PFLine.parsed (pl : PFLine) : Bool := pl.state == .fin
 def PFLine.isEmpty (pl : PFLine) : Bool := pl.state == .init
 def PFLine.pending (pl : PFLine) : Bool := pl.state != .fin && pl.state != .init
